@@ -355,6 +355,8 @@ Outcome run_c09(const Case &c) {
     if (!ok) { fail(would_block_code(err) ? "blocking-reports-retry" : "connect", "blocking connect to a listening loopback port failed: " + errstr(err)); if (err) p_error_free(err); p_socket_address_free(to); p_socket_free(ls); close(lst); return out; }
     if (!p_socket_is_connected(ls)) fail("connect", "is_connected FALSE after successful connect");
     p_socket_address_free(to);
+    // the library reported a completed connect: on loopback the connection then sits in the listener's queue already
+    { struct pollfd lp = {lst, POLLIN, 0}; if (poll(&lp, 1, 5000) <= 0) { fail("connect-false-success", "p_socket_connect returned TRUE but no connection reached the listening socket within 5 s (the connect system call was never completed)"); p_socket_free(ls); close(lst); return out; } }
     rawfd = accept(lst, NULL, NULL); close(lst); no_time_wait(rawfd);
   } else {
     PSocket *srv = p_socket_new(pf, P_SOCKET_TYPE_STREAM, P_SOCKET_PROTOCOL_TCP, NULL);
